@@ -260,6 +260,16 @@ def verify(contract, tier, check, budget=None, prefix=None):
         check.add_obligation(Obligation(f"{prop}.{contract.qualname}.lookup", contract.key, "lookup", "-", "undecided", 0.0, str(e)))
         rep.status = "missing"
         return rep
+    # decorators: only the ones whose calling convention is modelled may be dropped (DESIGN 2.1 item 3)
+    ALLOWED = {"property", "staticmethod", "classmethod", "no_type_check", "overload", "cached_property"}
+    bad = [ast.unparse(d) for d in fn.decorator_list
+           if not ((isinstance(d, ast.Name) and d.id in ALLOWED) or (isinstance(d, ast.Attribute) and d.attr in ALLOWED))]
+    if bad:
+        check.add_obligation(Obligation(f"{prop}.{contract.qualname}.decorator", contract.key, "unsupported", "-", "undecided", 0.0,
+                                        f"decorator(s) {bad} are not modelled: the function is not under deductive contract in this run"))
+        rep.status = "unsupported"
+        check.functions[contract.key] = {"obligations": 1, "discharged": 0, "paths": 0, "status": "unsupported-decorator", "shapes": 0}
+        return rep
     jobs, metas = [], []
     for shape in contract.shapes:
         st = State()
